@@ -70,7 +70,11 @@ def events(node, out):
         elif op == "plain":
             out.append([attr, op, [canon(term_value(node[0]))]])
         else:
-            out.append([attr, op, [canon(term_value(n)) for n in node if n.rule_name != "sep"]])
+            # children of a list assignment: a child is a separator node exactly when the expression that produced it is
+            # the separator of this repetition (a fact about the parse tree, independent of how the builder tells them)
+            sep = getattr(node.rule, "sep", None)
+            kids = [(["s", canon(n.flat_str())] if (sep is not None and n.rule is sep) else ["v", canon(term_value(n))]) for n in node]
+            out.append([attr, op, [c for k, c in kids if k == "v"], kids, sep is not None])
         return
     if hasattr(node, "__iter__") and not isinstance(node, str) and type(node).__name__ == "NonTerminal":
         for n in node:
